@@ -19,11 +19,14 @@ func createDynForWindowedThroughputSampler(c *config.WindowedThroughputSamplerCo
 		maxKeys = 500
 	}
 	clusterSize := 1 // Will be updated by SetClusterSize if needed
+	// negative durations pass validation; time.NewTicker panics on them. 0 = dynsampler's default
+	updateFrequency := max(time.Duration(c.UpdateFrequency), 0)
+	lookbackFrequency := max(time.Duration(c.LookbackFrequency), 0)
 
 	dynsamplerInstance := &dynsampler.WindowedThroughput{
 		GoalThroughputPerSec:      float64(c.GoalThroughputPerSec) / float64(clusterSize),
-		UpdateFrequencyDuration:   time.Duration(c.UpdateFrequency),
-		LookbackFrequencyDuration: time.Duration(c.LookbackFrequency),
+		UpdateFrequencyDuration:   updateFrequency,
+		LookbackFrequencyDuration: lookbackFrequency,
 		MaxKeys:                   maxKeys,
 	}
 	dynsamplerInstance.Start()
